@@ -526,24 +526,53 @@ Fixpoint ssrc_resp (s : ssrc) (i : nat) : res Z :=
   | S i' => ssrc_resp (snd (ssrc_next true s)) i'
   end.
 
+(* does the source ignore the context?  Such a source answers a Next with an expired context
+   exactly like a live one; every other source answers the context error and stays as it is. *)
+Definition ssrc_nc (s : ssrc) : bool :=
+  match s with SSScriptNC _ => true | _ => false end.
+
+Lemma ssrc_nc_next live a : ssrc_nc (snd (ssrc_next live a)) = ssrc_nc a.
+Proof.
+  unfold ssrc_next. destruct a as [i|evs|evs]; simpl.
+  - destruct (negb live); [reflexivity|]. destruct (isrc_next i) as [o i']. reflexivity.
+  - destruct (negb live); [reflexivity|]. destruct (script_next evs) as [o evs']. reflexivity.
+  - destruct (script_next evs) as [o evs']. reflexivity.
+Qed.
+Lemma ssrc_next_nc live a : ssrc_nc a = true -> ssrc_next live a = ssrc_next true a.
+Proof. destruct a as [i|evs|evs]; simpl; intros H; try discriminate. reflexivity. Qed.
+Lemma ssrc_next_expired a : ssrc_nc a = false -> ssrc_next false a = (Err ctx_err, a).
+Proof. destruct a as [i|evs|evs]; simpl; intros H; try discriminate; reflexivity. Qed.
+
+(* two sources agree for n calls: both look at the context or both ignore it, and their first n
+   answers to calls with a live context are the same *)
 Definition sagree (n : nat) (a b : ssrc) : Prop :=
-  forall i, (i < n)%nat -> ssrc_resp a i = ssrc_resp b i.
+  ssrc_nc b = ssrc_nc a /\ forall i, (i < n)%nat -> ssrc_resp a i = ssrc_resp b i.
 
 Lemma sagree_le n m a b : (m <= n)%nat -> sagree n a b -> sagree m a b.
-Proof. intros Hle H i Hi. apply H. lia. Qed.
+Proof. intros Hle [Hk H]. split; [exact Hk|]. intros i Hi. apply H. lia. Qed.
 Lemma sagree_refl n a : sagree n a a.
-Proof. intros i _. reflexivity. Qed.
+Proof. split; [reflexivity|]. intros i _. reflexivity. Qed.
 
 Lemma ssrc_next_agree live n a b :
   sagree (S n) a b ->
   fst (ssrc_next live b) = fst (ssrc_next live a) /\
   sagree n (snd (ssrc_next live a)) (snd (ssrc_next live b)).
 Proof.
-  intros H. destruct live.
-  - split.
-    + symmetry. exact (H O ltac:(lia)).
-    + intros i Hi. exact (H (S i) ltac:(lia)).
-  - unfold ssrc_next. simpl. split; [reflexivity|]. eapply sagree_le; [|exact H]. lia.
+  intros H.
+  assert (Hlive : fst (ssrc_next true b) = fst (ssrc_next true a) /\
+                  sagree n (snd (ssrc_next true a)) (snd (ssrc_next true b))).
+  { destruct H as [Hk H]. split.
+    - symmetry. exact (H O ltac:(lia)).
+    - split; [rewrite !ssrc_nc_next; exact Hk|]. intros i Hi. exact (H (S i) ltac:(lia)). }
+  destruct live; [exact Hlive|].
+  destruct (ssrc_nc a) eqn:Ka.
+  - (* both ignore the context: the call is a live call *)
+    assert (Kb : ssrc_nc b = true) by (destruct H as [Hk _]; congruence).
+    rewrite (ssrc_next_nc false a Ka), (ssrc_next_nc false b Kb). exact Hlive.
+  - (* both look at it: the context error, nothing consumed *)
+    assert (Kb : ssrc_nc b = false) by (destruct H as [Hk _]; congruence).
+    rewrite (ssrc_next_expired a Ka), (ssrc_next_expired b Kb). simpl.
+    split; [reflexivity|]. eapply sagree_le; [|exact H]. lia.
 Qed.
 
 (* ---- the relation on stream states ---- *)
@@ -678,7 +707,8 @@ Proof.
         injection H1 as Eo1 Es1 Ee1. injection H2 as Eo2 Es2 Ee2.
         subst o s1' ev o2 s2' ev2. simpl in Ha. rewrite count_next_cons_same in Ha.
         destruct (ssrc_next_agree live _ _ _ Ha) as [Hf Hr]. rewrite Ea, Eb in Hf, Hr.
-        simpl in Hf, Hr. right. cbn [srel]. repeat split; auto.
+        simpl in Hf, Hr. right. cbn [srel].
+        split; [exact Hf|]. split; [reflexivity|]. split; [reflexivity|exact Hr].
       * (* peek *)
         destruct (ipk_next (snext f live) p) as [[a1 q1] e1] eqn:E1.
         destruct (ipk_next (snext g live) p2) as [[a2 q2] e2] eqn:E2. inv_ret H1. inv_ret H2.
@@ -854,9 +884,17 @@ Qed.
 (* the answer of source s to its (i+1)-th Next call with a live context *)
 Definition stream_answer (s : source) (i : nat) : res Z := ssrc_resp (ssrc_init s) i.
 
+(* sources that agree for the first (n id) calls: the same attitude to the context (src_nc:
+   the source never looks at it) and the same first (n id) answers to calls with a live context.
+   (Without the first condition the run could tell them apart by a call with an expired context:
+   [stream_prefix_determinacy_kind_refuted].) *)
 Definition ssrc_agree (n : nat -> nat) (id : nat) (s s2 : source) : Prop :=
+  src_nc s2 = src_nc s /\
   forall i, (i < n id)%nat -> stream_answer s i = stream_answer s2 i.
 Definition spipe_agree (n : nat -> nat) := pipe_agree_with (ssrc_agree n).
+
+Lemma ssrc_nc_init s : ssrc_nc (ssrc_init s) = src_nc s.
+Proof. destruct s; reflexivity. Qed.
 
 Lemma sinit_rel L :
   (forall p1 p2, pz_agree_with (ssrc_agree (fun id => count_next id L)) p1 p2 ->
@@ -866,6 +904,7 @@ Lemma sinit_rel L :
 Proof.
   apply pipe_ind.
   - intros id s [id2 s2| | | | | | | | |]; simpl; auto.
+    intros [Hid [Hk Ha]]. split; [exact Hid|]. split; [rewrite !ssrc_nc_init; exact Hk|exact Ha].
   - intros p IH [|q| | | | | | | |]; simpl; auto.
   - intros r p IH [| |r2 q| | | | | | |]; simpl; auto. intros [H1 H2]. auto.
   - intros f fl p IH [| | |f2 fl2 q| | | | | |]; simpl; auto. intros (H1 & H2 & H3). auto.
@@ -902,14 +941,15 @@ Proof.
 Qed.
 
 Theorem stream_unread_irrelevant cfg p ops g :
+  (forall id s, src_nc (g id s) = src_nc s) ->
   (forall id s i, (i < pulls_in (run_stream_cfg cfg p (Steps ops)) id)%nat ->
                   stream_answer s i = stream_answer (g id s) i) ->
   run_stream_cfg cfg (pipe_resrc g p) (Steps ops) = run_stream_cfg cfg p (Steps ops).
 Proof.
-  intros Hg. apply stream_prefix_determinacy. unfold spipe_agree.
+  intros Hk Hg. apply stream_prefix_determinacy. unfold spipe_agree.
   assert (Hg' : forall id s,
             ssrc_agree (pulls_in (run_stream_cfg cfg p (Steps ops))) id s (g id s))
-    by (intros id s i Hi; apply Hg; exact Hi).
+    by (intros id s; split; [apply Hk|intros i Hi; apply Hg; exact Hi]).
   destruct p as [p|q]; simpl;
     [apply (proj1 (resrc_agree _ g Hg'))|apply (proj2 (resrc_agree _ g Hg'))].
 Qed.
@@ -940,4 +980,353 @@ Proof.
     by (vm_compute; reflexivity).
   assert (Hi' : (i < 5)%nat) by (rewrite <- H5; exact Hi). clear Hi H5.
   repeat (destruct i as [|i]; [reflexivity|]). lia.
+Qed.
+
+(* the same over a source that ignores the context: the call with the expired context reads on
+   (it completes the chunk), and still only what was read matters *)
+Definition spd_nc_demo : pz + pl :=
+  inr (LChunk 2 (ZFilter (PrLt 10) never_fails
+         (ZSrc 0 (SScriptNC [EvItem 1; EvTransient 9; EvItem 20; EvItem 2; EvItem 3; EvFatal 7])))).
+Definition spd_nc_demo2 : pz + pl :=
+  inr (LChunk 2 (ZFilter (PrLt 10) never_fails
+         (ZSrc 0 (SScriptNC [EvItem 1; EvTransient 9; EvItem 20; EvItem 2; EvFatal 8])))).
+Definition spd_nc_ops : list cop := [CNext true; CNext false; CClose].
+
+Example spd_nc_demo_run :
+  map so_res (ro_steps (run_stream spd_nc_demo (Steps spd_nc_ops)))
+  = [RErr 9; RItem (IL [1; 2]); RUnit] /\
+  pulls_in (run_stream spd_nc_demo (Steps spd_nc_ops)) 0%nat = 4%nat.
+Proof. vm_compute. split; reflexivity. Qed.
+
+Example spd_nc_demo_same :
+  run_stream spd_nc_demo2 (Steps spd_nc_ops) = run_stream spd_nc_demo (Steps spd_nc_ops).
+Proof.
+  apply stream_prefix_determinacy. unfold spipe_agree, spd_nc_demo, spd_nc_demo2.
+  cbn [pipe_agree_with pl_agree_with pz_agree_with].
+  split; [reflexivity|]. split; [reflexivity|]. split; [reflexivity|]. split; [reflexivity|].
+  split; [reflexivity|]. intros i Hi.
+  assert (H4 : pulls_in (run_stream spd_nc_demo (Steps spd_nc_ops)) 0%nat = 4%nat)
+    by (vm_compute; reflexivity).
+  assert (Hi' : (i < 4)%nat) by (rewrite <- H4; exact Hi). clear Hi H4.
+  repeat (destruct i as [|i]; [reflexivity|]). lia.
+Qed.
+
+(* The condition "same attitude to the context" in [ssrc_agree] cannot be dropped: a source that
+   looks at the context and one that ignores it, with the same script, give the same answers to
+   calls with a live context, and a single call with an expired context tells them apart. *)
+Theorem stream_prefix_determinacy_kind_refuted :
+  exists p1 p2 ops,
+    pipe_agree_with
+      (fun id s s2 => forall i, (i < pulls_in (run_stream p1 (Steps ops)) id)%nat ->
+                                stream_answer s i = stream_answer s2 i) p1 p2 /\
+    run_stream p2 (Steps ops) <> run_stream p1 (Steps ops).
+Proof.
+  exists (inl (ZSrc 0 (SScript [EvItem 1]))), (inl (ZSrc 0 (SScriptNC [EvItem 1]))),
+         [CNext false].
+  split.
+  - cbn [pipe_agree_with pz_agree_with]. split; [reflexivity|]. intros i Hi.
+    assert (H1 : pulls_in (run_stream (inl (ZSrc 0 (SScript [EvItem 1]))) (Steps [CNext false]))
+                          0%nat = 1%nat) by (vm_compute; reflexivity).
+    assert (Hi' : (i < 1)%nat) by (rewrite <- H1; exact Hi). clear Hi H1.
+    destruct i as [|i]; [reflexivity|lia].
+  - vm_compute. discriminate.
+Qed.
+
+(* ---- no combinator looks at the context itself ----
+   States none of whose parts looks at the context: every source ignores it (SSScriptNC) and
+   there is no Flatten (whose outer stream is a FromIterator).  On such a state a Next with an
+   expired context IS a Next with a live context: same result, same source events, same
+   successor.  So any check of the context inside a combinator (say filterStream.Next looking at
+   ctx.Err() after a successful inner Next, and dropping the item it has just pulled) would
+   contradict this theorem. *)
+Fixpoint sblind (s : sst) : Prop :=
+  match s with
+  | TSrc _ src => ssrc_nc src = true
+  | TPeek p => sblind (pk_in p)
+  | TCompact _ _ _ p | TFilter _ _ _ p | TFirst _ p | TMap _ _ _ p | TWhile _ _ _ _ _ _ p =>
+      sblind p
+  | TFlatten _ _ => False
+  | TJoin rem => all_p sblind rem
+  | TFlattenSlices _ q => slblind q
+  end
+with slblind (q : slst) : Prop :=
+  match q with
+  | TChunk _ _ p => sblind p
+  | TRuns _ _ _ _ p => sblind (pk_in p)
+  end.
+
+Definition brel (L : list sev) (s1 s2 : sst) : Prop := s2 = s1 /\ sblind s1.
+Definition blrel (L : list sev) (q1 q2 : slst) : Prop := q2 = q1 /\ slblind q1.
+
+Lemma Rpk_brel_refl L (p : pk sst) : sblind (pk_in p) -> Rpk brel L p p.
+Proof. intros H. split; [reflexivity|]. split; [reflexivity|]. split; [reflexivity|exact H]. Qed.
+Lemma Rpk_brel_inv L (p1 p2 : pk sst) : Rpk brel L p1 p2 -> p2 = p1 /\ sblind (pk_in p1).
+Proof.
+  destruct p1 as [h1 c1 i1]; destruct p2 as [h2 c2 i2]. intros (H1 & H2 & H3 & H4).
+  simpl in *. subst. split; [reflexivity|exact H4].
+Qed.
+Lemma Forall2_brel_refl L l : all_p sblind l -> Forall2 (brel L) l l.
+Proof.
+  induction l as [|x t IH]; simpl; intros H; constructor.
+  - split; [reflexivity|exact (proj1 H)].
+  - apply IH. exact (proj2 H).
+Qed.
+Lemma Forall2_brel_inv L l1 l2 : Forall2 (brel L) l1 l2 -> l2 = l1 /\ all_p sblind l1.
+Proof.
+  induction 1 as [|x y t u [Hxy Hb] Ht [IH1 IH2]]; simpl; [auto|].
+  subst. split; [reflexivity|split; assumption].
+Qed.
+
+Theorem snext_blind : forall f1 f2,
+  pd_sim brel (snext f1 false) (snext f2 true) /\
+  pd_sim blrel (slnext f1 false) (slnext f2 true).
+Proof.
+  induction f1 as [|f IH]; intros f2.
+  - split; intros L s1 s2 o s1' ev o2 s2' ev2 H1 Hno; simpl in H1; inv_ret H1; congruence.
+  - destruct f2 as [|g].
+    { split; intros L s1 s2 o s1' ev o2 s2' ev2 H1 Hno HR H2; simpl in H2; inv_ret H2;
+        left; reflexivity. }
+    destruct (IH g) as [IHz IHl].
+    assert (Hw : forall ev L s1 s2, brel (ev ++ L) s1 s2 -> brel L s1 s2)
+      by (intros ev0 L0 a b Hab; exact Hab).
+    assert (Hcl : forall (L : list sev) s1 s2, brel L s1 s2 -> sclose s2 = sclose s1)
+      by (intros L0 a b [Hab _]; rewrite Hab; reflexivity).
+    split; intros L s1 s2 o s1' ev o2 s2' ev2 H1 Hno [Heq HB] H2; subst s2.
+    + destruct s1 as [id a|p|r fi pv p|k fl c p|x p|rest curr|its|fn fl c p|fn fl c it h d p
+                     |b q]; cbn [sblind slblind] in HB; cbn [snext] in H1, H2.
+      * (* source: it ignores the context *)
+        rewrite (ssrc_next_nc false a HB) in H1.
+        pose proof (ssrc_nc_next true a) as Hk.
+        destruct (ssrc_next true a) as [oa a'] eqn:Ea.
+        injection H1 as Eo1 Es1 Ee1. injection H2 as Eo2 Es2 Ee2.
+        subst o s1' ev o2 s2' ev2. simpl in Hk. right.
+        split; [reflexivity|]. split; [reflexivity|]. split; [reflexivity|].
+        cbn [sblind]. rewrite Hk. exact HB.
+      * (* peek *)
+        destruct (ipk_next (snext f false) p) as [[a1 q1] e1] eqn:E1.
+        destruct (ipk_next (snext g true) p) as [[a2 q2] e2] eqn:E2. inv_ret H1. inv_ret H2.
+        assert (HR : Rpk brel (ev ++ L) p p) by (apply Rpk_brel_refl; exact HB).
+        destruct (ipk_next_pd _ _ _ IHz _ _ _ _ _ _ _ _ _ E1 Hno HR E2)
+          as [Ho|(Ho & He & HR')]; [left; exact Ho|right].
+        destruct (Rpk_brel_inv _ _ _ HR') as [Hq Hb]. subst. repeat split; auto.
+      * (* compact *)
+        destruct (icompact (snext f false) (S f) r fi pv p) as [[a1 [[f3 p3] q1]] e1] eqn:E1.
+        destruct (icompact (snext g true) (S g) r fi pv p) as [[a2 [[f4 p4] q2]] e2] eqn:E2.
+        inv_ret H1. inv_ret H2.
+        assert (HR : brel (ev ++ L) p p) by (split; [reflexivity|exact HB]).
+        destruct (icompact_pd _ _ _ IHz _ _ _ _ _ _ _ _ _ _ _ _ _ _ _ _ _ _ E1 Hno HR E2)
+          as [Ho|(Ho & He & Hf & Hp & [Hq Hb])]; [left; exact Ho|right]. subst.
+        repeat split; auto.
+      * (* filter *)
+        destruct (sfilter (snext f false) (S f) k fl c p) as [[a1 [c3 q1]] e1] eqn:E1.
+        destruct (sfilter (snext g true) (S g) k fl c p) as [[a2 [c4 q2]] e2] eqn:E2.
+        inv_ret H1. inv_ret H2.
+        assert (HR : brel (ev ++ L) p p) by (split; [reflexivity|exact HB]).
+        destruct (sfilter_pd _ _ _ IHz _ _ _ _ _ _ _ _ _ _ _ _ _ _ _ _ E1 Hno HR E2)
+          as [Ho|(Ho & He & Hc & [Hq Hb])]; [left; exact Ho|right]. subst. repeat split; auto.
+      * (* first *)
+        destruct (sfirst (snext f false) x p) as [[a1 [x3 q1]] e1] eqn:E1.
+        destruct (sfirst (snext g true) x p) as [[a2 [x4 q2]] e2] eqn:E2.
+        inv_ret H1. inv_ret H2.
+        assert (HR : brel (ev ++ L) p p) by (split; [reflexivity|exact HB]).
+        destruct (sfirst_pd _ _ _ IHz _ _ _ _ _ _ _ _ _ _ _ _ E1 Hno HR E2)
+          as [Ho|(Ho & He & Hx & [Hq Hb])]; [left; exact Ho|right]. subst. repeat split; auto.
+      * (* flatten: its outer stream looks at the context *)
+        destruct HB.
+      * (* join *)
+        destruct (sjoin (snext f false) sclose (S f) its) as [[a1 r3] e1] eqn:E1.
+        destruct (sjoin (snext g true) sclose (S g) its) as [[a2 r4] e2] eqn:E2.
+        inv_ret H1. inv_ret H2.
+        assert (HR : Forall2 (brel (ev ++ L)) its its) by (apply Forall2_brel_refl; exact HB).
+        destruct (sjoin_pd _ _ _ _ _ IHz Hw Hcl _ _ _ _ _ _ _ _ _ _ _ E1 Hno HR E2)
+          as [Ho|(Ho & He & HF')]; [left; exact Ho|right].
+        destruct (Forall2_brel_inv _ _ _ HF') as [Hq Hb]. subst. repeat split; auto.
+      * (* map *)
+        destruct (smap (snext f false) fn fl c p) as [[a1 [c3 q1]] e1] eqn:E1.
+        destruct (smap (snext g true) fn fl c p) as [[a2 [c4 q2]] e2] eqn:E2.
+        inv_ret H1. inv_ret H2.
+        assert (HR : brel (ev ++ L) p p) by (split; [reflexivity|exact HB]).
+        destruct (smap_pd _ _ _ IHz _ _ _ _ _ _ _ _ _ _ _ _ _ _ E1 Hno HR E2)
+          as [Ho|(Ho & He & Hc & [Hq Hb])]; [left; exact Ho|right]. subst. repeat split; auto.
+      * (* while *)
+        destruct (swhile (snext f false) fn fl c it h d p)
+          as [[a1 [[[[c3 i3] h3] d3] q1]] e1] eqn:E1.
+        destruct (swhile (snext g true) fn fl c it h d p)
+          as [[a2 [[[[c4 i4] h4] d4] q2]] e2] eqn:E2.
+        inv_ret H1. inv_ret H2.
+        assert (HR : brel (ev ++ L) p p) by (split; [reflexivity|exact HB]).
+        destruct (swhile_pd _ _ _ IHz _ _ _ _ _ _ _ _ _ _ _ _ _ _ _ _ _ _ _ _ _ _ _ E1 Hno HR E2)
+          as [Ho|(Ho & He & Hc & Hi & Hh & Hd & [Hq Hb])]; [left; exact Ho|right]. subst.
+        repeat split; auto.
+      * (* flatten slices *)
+        destruct (iflatslices (slnext f false) (S f) b q) as [[a1 [b3 q1]] e1] eqn:E1.
+        destruct (iflatslices (slnext g true) (S g) b q) as [[a2 [b4 q3]] e2] eqn:E2.
+        inv_ret H1. inv_ret H2.
+        assert (HR : blrel (ev ++ L) q q) by (split; [reflexivity|exact HB]).
+        destruct (iflatslices_pd _ _ _ IHl _ _ _ _ _ _ _ _ _ _ _ _ _ _ E1 Hno HR E2)
+          as [Ho|(Ho & He & Hb & [Hq Hbl])]; [left; exact Ho|right]. subst. repeat split; auto.
+    + destruct s1 as [sz ch p|r k c pd p]; cbn [sblind slblind] in HB; cbn [slnext] in H1, H2.
+      * destruct (schunk (snext f false) (S f) sz ch p) as [[a1 [c3 q1]] e1] eqn:E1.
+        destruct (schunk (snext g true) (S g) sz ch p) as [[a2 [c4 q2]] e2] eqn:E2.
+        inv_ret H1. inv_ret H2.
+        assert (HR : brel (ev ++ L) p p) by (split; [reflexivity|exact HB]).
+        destruct (schunk_pd _ _ _ IHz _ _ _ _ _ _ _ _ _ _ _ _ _ _ _ E1 Hno HR E2)
+          as [Ho|(Ho & He & Hc & [Hq Hb])]; [left; exact Ho|right]. subst. repeat split; auto.
+      * destruct (sruns (snext f false) (S f) r k c pd p) as [[a1 [[c3 d3] q1]] e1] eqn:E1.
+        destruct (sruns (snext g true) (S g) r k c pd p) as [[a2 [[c4 d4] q2]] e2] eqn:E2.
+        inv_ret H1. inv_ret H2.
+        assert (HR : Rpk brel (ev ++ L) p p) by (apply Rpk_brel_refl; exact HB).
+        destruct (sruns_pd _ _ _ IHz _ _ _ _ _ _ _ _ _ _ _ _ _ _ _ _ _ _ _ E1 Hno HR E2)
+          as [Ho|(Ho & He & Hc & Hd & HR')]; [left; exact Ho|right].
+        destruct (Rpk_brel_inv _ _ _ HR') as [Hq Hb]. subst. repeat split; auto.
+Qed.
+
+(* one consumer step: the same fuel on both sides, so the two calls are equal outright *)
+Lemma sstep_blind s : sblind s ->
+  sstep false s = sstep true s /\ sblind (snd (fst (sstep true s))).
+Proof.
+  intros HB.
+  destruct (sstep false s) as [[o1 s1] e1] eqn:E1.
+  destruct (sstep true s) as [[o2 s2] e2] eqn:E2.
+  pose proof (snext_fuel_enough _ _ _ _ _ E1) as Hn1.
+  pose proof (snext_fuel_enough _ _ _ _ _ E2) as Hn2. unfold sstep in E1, E2.
+  assert (HR : brel (e1 ++ []) s s) by (split; [reflexivity|exact HB]).
+  destruct (proj1 (snext_blind _ _) _ _ _ _ _ _ _ _ _ E1 Hn1 HR E2)
+    as [Ho|(Ho & He & [Hs Hb])]; [congruence|].
+  subst. split; [reflexivity|exact Hb].
+Qed.
+Lemma slstep_blind q : slblind q ->
+  slstep false q = slstep true q /\ slblind (snd (fst (slstep true q))).
+Proof.
+  intros HB.
+  destruct (slstep false q) as [[o1 q1] e1] eqn:E1.
+  destruct (slstep true q) as [[o2 q2] e2] eqn:E2.
+  pose proof (slnext_fuel_enough _ _ _ _ _ E1) as Hn1.
+  pose proof (slnext_fuel_enough _ _ _ _ _ E2) as Hn2. unfold slstep in E1, E2.
+  assert (HR : blrel (e1 ++ []) q q) by (split; [reflexivity|exact HB]).
+  destruct (proj2 (snext_blind _ _) _ _ _ _ _ _ _ _ _ E1 Hn1 HR E2)
+    as [Ho|(Ho & He & [Hs Hb])]; [congruence|].
+  subst. split; [reflexivity|exact Hb].
+Qed.
+
+Definition qblind (s : srun_st) : Prop :=
+  match s with QZ s => sblind s | QL q => slblind q end.
+
+Lemma srun_next_blind live s : qblind s ->
+  srun_next live s = srun_next true s /\ qblind (snd (fst (srun_next true s))).
+Proof.
+  intros HB. destruct s as [s|q]; simpl in *.
+  - destruct (sstep_blind s HB) as [He Hb].
+    destruct live; [|rewrite He]; destruct (sstep true s) as [[o s1] e1]; simpl in *; auto.
+  - destruct (slstep_blind q HB) as [He Hb].
+    destruct live; [|rewrite He]; destruct (slstep true q) as [[o q1] e1]; simpl in *; auto.
+Qed.
+
+Lemma ssrc_init_nc s : src_nc s = true -> ssrc_nc (ssrc_init s) = true.
+Proof. intros H. rewrite ssrc_nc_init. exact H. Qed.
+
+Lemma sinit_blind :
+  (forall p, ctx_blind_z p -> sblind (sinit p)) /\
+  (forall q, ctx_blind_l q -> slblind (slinit q)).
+Proof.
+  apply pipe_ind; simpl; intros; auto.
+  - apply ssrc_init_nc. assumption.
+  - induction H as [|x t Hx Ht IH]; simpl in *; [exact I|]. destruct H0 as [H1 H2]. split; auto.
+Qed.
+
+(* the consumer program with every context live *)
+Definition op_live (op : cop) : cop := match op with CNext _ => CNext true | CClose => CClose end.
+
+Lemma srun_steps_blind ids : forall ops s log,
+  qblind s -> srun_steps ids s log ops = srun_steps ids s log (map op_live ops).
+Proof.
+  induction ops as [|op ops IH]; intros s log HB; simpl; [reflexivity|].
+  destruct op as [live|]; simpl.
+  - destruct (srun_next_blind live s HB) as [He Hb]. rewrite He.
+    destruct (srun_next true s) as [[o s1] ev1]. simpl in Hb.
+    destruct (stops o); [reflexivity|]. rewrite (IH s1 (log ++ ev1) Hb). reflexivity.
+  - rewrite (IH s (log ++ srun_close s) HB). reflexivity.
+Qed.
+
+(* Pipelines none of whose parts looks at the context (every source an SScriptNC, no Flatten):
+   the contexts of the consumer's calls are irrelevant - results, pull counts after every step
+   and the event log are those of the same program with live contexts. *)
+Theorem stream_blind_live cfg p ops :
+  ctx_blind p ->
+  run_stream_cfg cfg p (Steps ops) = run_stream_cfg cfg p (Steps (map op_live ops)).
+Proof.
+  intros HB. unfold run_stream_cfg.
+  rewrite (srun_steps_blind (sort_ids (pipe_ids p)) ops (srun_init p) []); [reflexivity|].
+  destruct p as [p|q]; simpl in *; [apply (proj1 sinit_blind)|apply (proj2 sinit_blind)];
+    exact HB.
+Qed.
+
+(* non-vacuity, and the mutation this excludes: Filter over a context-ignoring source; the two
+   calls with an expired context deliver the items they pull (2 is filtered out on the way) *)
+Definition blind_demo : pz + pl :=
+  inl (ZFilter (PrModEq 2 1) never_fails
+         (ZSrc 0 (SScriptNC [EvItem 1; EvItem 2; EvItem 3; EvTransient 9; EvItem 5]))).
+Example blind_demo_run :
+  ctx_blind blind_demo /\
+  map so_res (ro_steps (run_stream blind_demo
+                          (Steps [CNext false; CNext false; CNext true; CNext false;
+                                  CNext false])))
+  = [RItem (IZ 1); RItem (IZ 3); RErr 9; RItem (IZ 5); REnd].
+Proof. split; [vm_compute; reflexivity|vm_compute; reflexivity]. Qed.
+
+(* ---- the reducers over such pipelines: an expired context changes nothing ---- *)
+Lemma sreduce_loop_blind {A} (f : A -> Z -> A) : forall n acc s,
+  sblind s -> sreduce_loop n false f acc s = sreduce_loop n true f acc s.
+Proof.
+  induction n as [|n IH]; intros acc s HB; simpl; [reflexivity|].
+  destruct (sstep_blind s HB) as [He Hb]. rewrite He.
+  destruct (sstep true s) as [[o s1] ev1]. simpl in Hb.
+  destruct o; try reflexivity. rewrite (IH _ _ Hb). reflexivity.
+Qed.
+
+Lemma slast_loop_blind n0 : forall k buf i s,
+  sblind s -> slast_loop k false n0 buf i s = slast_loop k true n0 buf i s.
+Proof.
+  induction k as [|k IH]; intros buf i s HB; simpl; [reflexivity|].
+  destruct (sstep_blind s HB) as [He Hb]. rewrite He.
+  destruct (sstep true s) as [[o s1] ev1]. simpl in Hb.
+  destruct o; try reflexivity. destruct (n0 =? 0); [reflexivity|].
+  destruct (zset buf (Z.rem i n0) x); [|reflexivity]. rewrite (IH _ _ _ Hb). reflexivity.
+Qed.
+
+Lemma sone_body_blind s : sblind s -> sone_body false s = sone_body true s.
+Proof.
+  intros HB. unfold sone_body.
+  destruct (sstep_blind s HB) as [He Hb]. rewrite He.
+  destruct (sstep true s) as [[o s1] ev1]. simpl in Hb.
+  destruct o; try reflexivity.
+  destruct (sstep_blind s1 Hb) as [He1 _]. rewrite He1. reflexivity.
+Qed.
+
+Theorem stream_blind_live_reduce cfg p r live :
+  ctx_blind_z p ->
+  run_stream_cfg cfg (inl p) (Reduce r live) = run_stream_cfg cfg (inl p) (Reduce r true).
+Proof.
+  intros HB. destruct live; [reflexivity|].
+  pose proof (proj1 sinit_blind p HB) as Hs.
+  unfold run_stream_cfg, srun_reduce.
+  destruct r as [|n| | | |others]; try reflexivity.
+  - unfold scollect, sreduce. rewrite (sreduce_loop_blind _ _ _ _ Hs). reflexivity.
+  - unfold slast. rewrite (sreduce_loop_blind _ _ _ _ Hs), (slast_loop_blind _ _ _ _ _ Hs).
+    reflexivity.
+  - unfold sone. rewrite (sone_body_blind _ Hs). reflexivity.
+  - unfold sreduce. rewrite (sreduce_loop_blind _ _ _ _ Hs). reflexivity.
+Qed.
+
+Lemma op_live_nexts lives : map op_live (map CNext lives) = map CNext (repeat true (length lives)).
+Proof. induction lives as [|b t IH]; simpl; [reflexivity|]. rewrite IH. reflexivity. Qed.
+
+(* ... so a failure-free pipeline of that kind never reports the context error: whatever the
+   contexts, k calls deliver the denotation and then the end *)
+Theorem stream_blind_steps_den cfg p lives :
+  ctx_blind p -> okp false p ->
+  results (run_stream_cfg cfg p (Steps (map CNext lives))) = expect (den p) (length lives).
+Proof.
+  intros HB Hok. rewrite (stream_blind_live cfg p _ HB), op_live_nexts.
+  apply stream_steps_den. exact Hok.
 Qed.
